@@ -14,6 +14,35 @@ fn main() {
         }
         return;
     }
+    if args.len() == 5 && args[1] == "--fuzz" {
+        // model validation (NOT the deciding technique): run the harness body natively on
+        // pseudo-random values; used while developing the reference models.
+        let f = lc3v::lookup(&args[2]).expect("harness");
+        let iters: u64 = args[3].parse().unwrap();
+        let seed: u64 = args[4].parse().unwrap();
+        std::panic::set_hook(Box::new(|_| {}));
+        let (mut ran, mut rejected) = (0u64, 0u64);
+        for it in 0..iters {
+            lc3v::nd::fuzz_begin(seed.wrapping_mul(0x9E3779B97F4A7C15).wrapping_add(it.wrapping_mul(0xD1B54A32D192ED03)));
+            let r = std::panic::catch_unwind(f);
+            match r {
+                Ok(()) => ran += 1,
+                Err(e) if e.is::<lc3v::nd::AssumeFail>() => rejected += 1,
+                Err(e) => {
+                    let msg = e.downcast_ref::<&str>().map(|s| s.to_string())
+                        .or_else(|| e.downcast_ref::<String>().cloned()).unwrap_or_default();
+                    println!("FUZZ: assertion failed after {ran} runs ({rejected} rejected): {msg}");
+                    let rec = lc3v::nd::fuzz_record();
+                    let out: Vec<String> = rec.iter().map(|v| v.iter().map(|b| b.to_string()).collect::<Vec<_>>().join(" ")).collect();
+                    std::fs::write("/tmp/fuzz_fail.vals", out.join("\n") + "\n").unwrap();
+                    println!("values written to /tmp/fuzz_fail.vals");
+                    std::process::exit(101);
+                }
+            }
+        }
+        println!("FUZZ: {ran} runs passed, {rejected} rejected by assumptions");
+        return;
+    }
     if args.len() != 3 {
         eprintln!("usage: replay <harness> <values-file> | --list");
         std::process::exit(2);
